@@ -1,27 +1,35 @@
 (* Glue for the keep-alive model (C18).
    Tick counts depend on the wall clock, so the harness hands the model the schedule
-   it OBSERVED: the number of successful pings before the terminating event and the
-   kind of that event; the model must reproduce everything else (failed ping, Close,
-   return, silence afterwards whatever the continuation [suffix] offers, wire bytes).
-   Three transports: 0 a recording stub (the k-th Ping fails); 1 the real XMPPTransport
-   over loopback TCP (which write the kernel refuses is observed; the server's byte
-   count is compared); 2 the real XMPPTransport over a scripted net.Conn (the model finds
-   the failing write in the script itself and lists the conn.Write calls of each Ping). *)
+   it OBSERVED: the number of successful pings before the terminating event, and HOW the
+   run ended (harness closed quit / a ping failed / the session of a real Client ended
+   in a given way); the model must reproduce everything else: failed ping, Close, the
+   loop being over ("return"), silence afterwards whatever the continuation [suffix]
+   offers, wire bytes, what happens to the connection underneath, how the loss is reported.
+   Transports: 0 a recording stub (the k-th Ping fails); 1 the real XMPPTransport over
+   loopback TCP, alone or inside a real Client.Connect session (which write the kernel
+   refuses is observed); 2 the real XMPPTransport over a scripted net.Conn (the model
+   finds the failing write in the script itself and lists every conn.Write / conn.Close).
+   Where a real receive loop shares the quit channel ([k_end] <> 0) quit is closed iff the
+   receive-loop model (Model/Recv.v) says so for the way the session ended. *)
 From Coq Require Import List ZArith NArith Bool.
 From XV Require Import Lib.Sx Model.Keepalive.
+From XV Require Model.Recv.
 Import ListNotations.
 Open Scope Z_scope.
 
 Record kinput := {
   k_interval : Z;        (* microseconds; only its sign matters to the model *)
-  k_term : Z;            (* terminating event offered: 0 quit, 1 the tick whose ping fails, 2 none *)
-  k_failat : nat;        (* 1-based ping that fails; 0 = none *)
+  k_term : Z;            (* 0 the run ends by quit; 1 by the tick whose ping fails; 2 nothing ends it *)
+  k_failat : nat;        (* modes 0, 1: 1-based ping that fails; 0 = none *)
   k_nsucc : nat;         (* successful pings observed before the terminating event *)
   k_suffix : list sel;   (* what the environment goes on offering afterwards *)
-  k_mode : Z;            (* 0 stub transport; 1 real XMPPTransport over TCP; 2 real XMPPTransport
-                            over a scripted net.Conn (every conn.Write call and its result visible) *)
-  k_srvn : nat;          (* mode 1, failing path: bytes the server had read when it was cut *)
-  k_script : list wres   (* mode 2: results of the successive conn.Write calls (then (1, nil)) *)
+  k_mode : Z;            (* transport, see above *)
+  k_lossy : bool;        (* mode 1: the server stopped reading at some point: it saw a prefix *)
+  k_srvn : nat;          (* mode 1, lossy: number of keep-alive bytes the server had read *)
+  k_script : list wres;  (* mode 2: results of the successive conn.Write calls (then (len, nil)) *)
+  k_end : Z              (* 0 no receive loop (the harness owns quit); 1 a receive loop whose read
+                            fails once the connection is gone; 2 a receive loop that is handed the
+                            server's closing tag *)
 }.
 
 Definition dec_sel (x : sx) : option sel :=
@@ -39,12 +47,12 @@ Definition dec_wres (x : sx) : option wres :=
 
 Definition dec_input (x : sx) : option kinput :=
   match x with
-  | SL [iv; term; failat; nsucc; suffix; mode; srvn; script] =>
+  | SL [iv; term; failat; nsucc; suffix; mode; lossy; srvn; script; en] =>
       do i <- as_z iv; do t <- as_z term; do f <- as_nat failat; do n <- as_nat nsucc;
-      do s <- as_list dec_sel suffix; do c <- as_z mode; do r <- as_nat srvn;
-      do w <- as_list dec_wres script;
-      Some {| k_interval := i; k_term := t; k_failat := f; k_nsucc := n;
-              k_suffix := s; k_mode := c; k_srvn := r; k_script := w |}
+      do s <- as_list dec_sel suffix; do c <- as_z mode; do l <- as_b lossy; do r <- as_nat srvn;
+      do w <- as_list dec_wres script; do e <- as_z en;
+      Some {| k_interval := i; k_term := t; k_failat := f; k_nsucc := n; k_suffix := s;
+              k_mode := c; k_lossy := l; k_srvn := r; k_script := w; k_end := e |}
   | _ => None
   end.
 
@@ -58,9 +66,24 @@ Definition act_sx (a : act) : list sx :=
   | APanic => [SZ 4]
   end.
 
+Definition cact_sx (c : cact) : sx :=
+  match c with
+  | CWrite d => SL [SZ 0; SS d]
+  | CConnClose => SL [SZ 1]
+  end.
+
+(* the receive loop sharing the quit channel, for the way the session ended *)
+Definition recv_trace (i : kinput) : list Recv.action :=
+  if k_end i =? 1 then Recv.crecv 0 0 None []
+  else if k_end i =? 2 then Recv.crecv 0 0 None [Recv.IClose]
+  else [].
+
 Definition schedule (i : kinput) : list sel :=
+  let quit_closed :=
+    if k_end i =? 0 then true else existsb Recv.is_quit (recv_trace i) in
   repeat STick (k_nsucc i)
-  ++ (if k_term i =? 0 then [SQuit] else if k_term i =? 1 then [STick] else [])
+  ++ (if k_term i =? 1 then [STick]
+      else if (k_term i =? 0) && quit_closed then [SQuit] else [])
   ++ k_suffix i.
 
 Definition fail_oracle (i : kinput) : nat -> bool :=
@@ -76,16 +99,18 @@ Definition run_typed (i : kinput) : sx :=
   let w := wire tr in
   let wire_sx :=
     if negb (k_mode i =? 1) then SS []
-    else if k_term i =? 1
-         then (* the server was cut: it read a prefix of what was handed to the connection *)
+    else if k_lossy i
+         then (* the server read a prefix of what was handed to the connection *)
               if Nat.leb (k_srvn i) (length w) then SS (firstn (k_srvn i) w) else SL [SZ (-1)]
          else (* connection healthy: every successful ping's byte arrives *)
               SS (flat_map (fun a => match a with APingOk => ping_data | _ => [] end) tr) in
-  (* mode 2: the conn.Write calls made by each Ping, in order *)
-  let ping_writes :=
-    if k_mode i =? 2
-    then flat_map (fun a => if is_ping a then [SL [SS (fst (xmpp_ping (WOk 1)))]] else []) tr
-    else [] in
-  SL [SL (flat_map act_sx tr); wire_sx; SL ping_writes].
+  (* mode 2: everything done to the connection; the closing tag's write fails iff the
+     connection is dead for writing, the model does not care *)
+  let ct := if k_mode i =? 2 then conn_trace (WErr 0) tr else [] in
+  (* how the loss is reported by the receive loop: mode 2, the read only fails once the
+     keep-alive loop has closed the connection; mode 1, the session was ended from outside *)
+  let rt := if (k_mode i =? 2) && negb (Nat.ltb 0 (count is_connclose ct)) then [] else recv_trace i in
+  SL [SL (flat_map act_sx tr); wire_sx; SL (map cact_sx ct);
+      SL [Snat (Recv.count_act Recv.is_err rt); Snat (Recv.count_act Recv.is_disc rt)]].
 
 Definition run_C18 : sx -> sx := with_input dec_input run_typed.
